@@ -11,6 +11,9 @@ import ast
 import os
 
 
+OUTPUTS = ['Persist.lean']
+
+
 def _lean_str(s):
     out = []
     for ch in s:
